@@ -19,7 +19,8 @@
      the ClientHello; before that "need more"; every datagram is left byte-for-byte unchanged and Data() keeps them in order. *)
 EXTENDS Integers, Sequences, FiniteSets, TLC, Json
 
-CONSTANTS MaxExts, MaxCuts, MaxFrames, Depth,     \* Depth: "quick" | "full"
+CONSTANTS MaxExts, MaxCuts, MaxFrames, Depth,     \* Depth: "quick" | "full" | "flights" (QUIC only: every placement of the
+                                                 \* CRYPTO pieces in up to three plain packets, exhaustively)
           Kinds                                  \* which kinds of case this configuration generates
 
 (* ---------------------------------------------------------------- names *)
@@ -33,7 +34,8 @@ SniExts == {Ext("sni", <<Entry(0, n)>>) : n \in NameIds}
            \cup {Ext("sni", <<Entry(1, "plain"), Entry(0, "idn")>>), Ext("sni", <<Entry(0, "plain"), Entry(0, "idn")>>),
                  Ext("sni", <<Entry(1, "plain")>>), Ext("sni", <<>>)}
 OtherExts == {Ext("grease", <<>>), Ext("pad", <<>>), Ext("alpn", <<>>), Ext("versions", <<>>), Ext("keyshare", <<>>)}
-ExtChoices == IF Depth = "quick" THEN {Ext("sni", <<Entry(0, "mixed")>>), Ext("sni", <<Entry(1, "plain"), Entry(0, "idn")>>), Ext("grease", <<>>), Ext("pad", <<>>)}
+ExtChoices == IF Depth = "flights" THEN {Ext("sni", <<Entry(0, "plain")>>)}
+              ELSE IF Depth = "quick" THEN {Ext("sni", <<Entry(0, "mixed")>>), Ext("sni", <<Entry(1, "plain"), Entry(0, "idn")>>), Ext("grease", <<>>), Ext("pad", <<>>)}
               ELSE SniExts \cup OtherExts
 Hello(rm, ht, vm, sid, exts) == [recMinor |-> rm, hsType |-> ht, vMinor |-> vm, sid |-> sid, exts |-> exts]
 
@@ -106,8 +108,10 @@ Choose == /\ kind = "start"
           /\ \/ /\ "tls" \in Kinds /\ kind' = "tls" /\ \E rm \in {1, 3}, ht \in {1, 2}, vm \in {1, 3}, sid \in {0, 32} : hello' = Hello(rm, ht, vm, sid, <<>>)
                 /\ UNCHANGED <<http, quic>>
              \/ /\ "http" \in Kinds /\ kind' = "http" /\ \E m \in Methods : http' = [method |-> m, hdrs |-> <<>>] /\ UNCHANGED <<hello, quic>>
-             \/ /\ "quic" \in Kinds /\ kind' = "quic" /\ \E v \in {1, 2}, d \in {0, 8, 20}, np \in 1..MaxFrames : quic' = [version |-> v, npieces |-> np, dgs |-> <<>>, dcid |-> d]
-                /\ \E sid \in {0, 32} : hello' = Hello(3, 1, 3, sid, <<>>) /\ UNCHANGED http
+             \/ /\ "quic" \in Kinds /\ kind' = "quic"
+                /\ \E v \in (IF Depth = "flights" THEN {1} ELSE {1, 2}), d \in (IF Depth = "flights" THEN {8} ELSE {0, 8, 20}),
+                      np \in (IF Depth = "flights" THEN {MaxFrames} ELSE 1..MaxFrames) : quic' = [version |-> v, npieces |-> np, dgs |-> <<>>, dcid |-> d]
+                /\ \E sid \in (IF Depth = "flights" THEN {0} ELSE {0, 32}) : hello' = Hello(3, 1, 3, sid, <<>>) /\ UNCHANGED http
              \/ /\ "junk" \in Kinds /\ kind' = "junk" /\ UNCHANGED <<hello, http, quic>>
           /\ stage' = 1 /\ UNCHANGED <<cuts, drain>>
 
@@ -132,8 +136,9 @@ AddCut == /\ kind \in {"tls", "http", "junk"} /\ stage = 2 /\ Len(cuts) < MaxCut
 Packets == {[frames |-> fs, pad |-> pd, pnLen |-> pl, other |-> o, bad |-> b] :
                fs \in {<<Frame(p)>> : p \in 1..MaxFrames} \cup {<<Frame(p), Frame(q)>> : p \in 1..MaxFrames, q \in 1..MaxFrames}
                       \cup {<<Frame(1), Frame(2), Frame(3)>>, <<Frame(3), Frame(2), Frame(1)>>, <<>>},
-               pd \in (IF Depth = "quick" THEN {"none", "between"} ELSE {"none", "front", "between", "ping"}),
-               pl \in (IF Depth = "quick" THEN {1, 4} ELSE 1..4), o \in BOOLEAN, b \in BOOLEAN}
+               pd \in (IF Depth = "flights" THEN {"none"} ELSE IF Depth = "quick" THEN {"none", "between"} ELSE {"none", "front", "between", "ping"}),
+               pl \in (IF Depth = "flights" THEN {2} ELSE IF Depth = "quick" THEN {1, 4} ELSE 1..4),
+               o \in (IF Depth = "flights" THEN {FALSE} ELSE BOOLEAN), b \in (IF Depth = "flights" THEN {FALSE} ELSE BOOLEAN)}
 PacketOk(p) == \A i \in 1..Len(p.frames) : p.frames[i].piece <= quic.npieces
 NPackets == LET RECURSIVE C(_) C(i) == IF i > Len(quic.dgs) THEN 0 ELSE Len(quic.dgs[i]) + C(i + 1) IN C(1)
 AddPacket == /\ kind = "quic" /\ stage = 2 /\ NPackets < 3
@@ -144,7 +149,7 @@ AddPacket == /\ kind = "quic" /\ stage = 2 /\ NPackets < 3
              /\ UNCHANGED <<kind, hello, http, cuts, drain, stage>>
 Finish == /\ stage = 2 /\ (kind = "quic" => quic.dgs # <<>>)
           /\ stage' = 3
-          /\ \E d \in Drains : drain' = d
+          /\ \E d \in (IF Depth = "flights" THEN {"read"} ELSE Drains) : drain' = d
           /\ UNCHANGED <<kind, hello, http, cuts, quic>>
 
 Next == Choose \/ AddExt \/ AddHdr \/ Deliver \/ AddCut \/ AddPacket \/ Finish
